@@ -268,11 +268,35 @@ def rows_tie(ctx, worlds, runs):
             "world": worlds[i]})
 
 
+def grows_tie(ctx, worlds, runs):
+    """S-grows: TASK_GRAPH_FINISHED / MISSED_TASK_GRAPH_DEADLINE rows and the three graph counters of SIMULATOR_END written by
+    the REAL simulator vs what the machine emits for the same call log (Model/SimGraphRows.v), inside Coq, in order."""
+    ctx.rules.append("S-grows: for every generated simulation that ended, the TASK_GRAPH_FINISHED and MISSED_TASK_GRAPH_DEADLINE rows "
+                     "and the graph counters of SIMULATOR_END must equal grows_of(graph descriptions at load time, call log)")
+    import simgen
+    try:
+        mism, fed = simcommon.grows_stream(
+            ctx, worlds, runs, outside=lambda w: bool(w.get("fuzz") and w["fuzz"].get("coarse_units")))
+    except core.ModelEvalError as e:
+        ctx.broken.append({"kind": "correspondence", "name": "S-grows (graph rows model does not evaluate)", "detail": str(e)[-500:]})
+        return
+    for (i, j, mrow, irow) in mism[:3]:
+        if isinstance(mrow, list) and mrow and mrow[0] == -1:
+            continue          # the machine rejected the call log: reported by the S-sim tie
+        ctx.violation("grows_world%d" % i, {
+            "stream": "S-grows", "what": "graph-level row %d of the trace is not the row the run implies" % j,
+            "row_implied_by_the_run": mrow, "row_written_by_the_simulator": irow,
+            "row_format": "[kind, time, ...] kinds 0 TASK_GRAPH_FINISHED(graph,deadline,tardiness) 1 MISSED_TASK_GRAPH_DEADLINE(graph,deadline) "
+                          "2 SIMULATOR_END(finished graphs, cancelled graphs, missed graph deadlines)",
+            "world": worlds[i]})
+
+
 def run(ctx):
     worlds, runs = simcheck.run_sim_property(ctx, ["C08", "C08_rows"], mon_c08_outside_f41,
                                              "a row of the CSV trace or the end-of-run summary disagrees with what happened in the run",
-                                             deps=["Model/SimRows.v"])
+                                             deps=["Model/SimRows.v", "Model/SimGraphRows.v"])
     rows_tie(ctx, worlds, runs)
+    grows_tie(ctx, worlds, runs)
     # ---- the project's own reader must accept every trace and reconstruct the run
     import simgen
     # closed-loop worlds: the reader is known to reject them (F9), replayed separately below
